@@ -288,9 +288,15 @@ def linkVal : Nat → GProg → Nat → CV → LType → St → Res (St × CV)
       | none => .err
       | some c =>
         if sameType t (constTypeIn p σ cm cn c) then .ok (σ, .cref cm cn) else
-        match alookup (cm, cn) σ.cval with
-        | some cur => linkVal f p m cur t σ
-        | none => linkVal f p m c.val t { σ with reent := true }
+        -- the target's value is cast to another type; needing it again meanwhile is a cycle
+        -- (`linkingValue` is set for the duration of the cast, and cleared by the `defer`)
+        if σ.clink.contains (cm, cn) then .err else
+        match (match alookup (cm, cn) σ.cval with
+               | some cur => linkVal f p m cur t { σ with clink := (cm, cn) :: σ.clink }
+               | none => linkVal f p m c.val t { σ with reent := true, clink := (cm, cn) :: σ.clink }) with
+        | .ok (σ1, v) => .ok ({ σ1 with clink := σ1.clink.filter (fun x => x != (cm, cn)) }, v)
+        | .err => .err
+        | .fuel => .fuel
     | .uref name =>
       -- constantReference.Link
       match lookupConst p m name with
